@@ -556,6 +556,12 @@ def run(ctx, deep_budget=None):
               "xsd:int", "ns9:x", ":x", "a:"):
         ctx.dist["prefix-like"] += 1
         check_string(ctx, paths, s, None, True)
+    # strings in no Unicode normal form (combining sequences, compatibility and singleton code points): the code points
+    # given are the value
+    for s in ("e\u0308", "\u212b", "\u2126x", "\u0958", "\uf900", "a\u0301\u0323", "\ufb01n", "\U0001d15e",
+              "Zoe\u0308 & A\u030a", "\u1e9b\u0323", "\u00e9e\u0301"):
+        ctx.dist["no-normal-form"] += 1
+        check_string(ctx, paths, s, None, True)
     # replies in every encoding a document may declare (the value is the document's string, whatever bytes spell it)
     for s in ("\u00e9 x", "caf\u00e9 & cr\u00e8me", "\u20acuro", "\U0001d11e", "plain", "\u00fc<\u00df>"):
         for enc in ("utf-8-declared", "utf-16", "utf-16-be", "iso-8859-1"):
